@@ -33,7 +33,7 @@ def run(tier):
     kc.model_check(rep, wd)
     scn = kc.exported(wd, False)
     sp = vlib.write_ndjson(os.path.join(wd, "scn.ndjson"), scn)
-    counts = (1, 2, 3, 4, 16) if thorough else (1, 2, 4)
+    counts = (1, 2, 3, 4, 5, 7, 16) if thorough else (1, 3, 4)
     paths = {}
     for n in counts:
         tr = os.path.join(wd, f"replay{n}.ndjson")
